@@ -359,6 +359,9 @@ class TotalWorld(OracleWorld):
     def str_eq(self, st, a, b):
         return self.decide(st, "str-eq", [True, False])
 
+    def str_variant(self, st, v, rv):
+        return 0 if self.decide(st, "cow-variant", ["Borrowed", "Owned"]) == "Borrowed" else 1
+
     def str_is_empty(self, st, s):
         return Sym(("is_empty", self.n(st)), "bool")
 
@@ -521,6 +524,13 @@ class TotalWorld(OracleWorld):
 
     def unevaluated_const(self, st, c):
         return ty_.fresh(self.prog, c["ty"], ("const", self.n(st)))
+
+    def opaque_field(self, st, v, step):
+        # a field of an external struct: an unconstrained value of the field's type (the type is read off
+        # the MIR's own projections); the same field of the same value is the same atom
+        pty = v.data[0] if isinstance(v, Opq) and v.kind == "fresh" and isinstance(v.data, tuple) else None
+        fty = self.prog.field_type(pty, step) if pty and isinstance(step, int) else None
+        return ty_.fresh(self.prog, fty or "?", ("f", v.data[1] if pty else repr(v)[:40], step))
 
     def opaque_const(self, st, c):
         return Opq("const", (c.get("ty"), c["k"]))
